@@ -26,6 +26,7 @@ import (
 	"strings"
 	"sync"
 	"time"
+	_ "time/tzdata" // zone database independent of the host
 	"unicode/utf8"
 
 	"github.com/bluenviron/mediamtx/internal/logger"
@@ -126,6 +127,22 @@ var clockReadings = []time.Time{
 	time.Date(1999, 12, 31, 23, 59, 59, 999999999, time.FixedZone("", 5*3600+30*60)),
 	time.Date(2038, 1, 19, 3, 14, 8, 500000000, time.FixedZone("", -8*3600)),
 	time.Date(2026, 6, 30, 12, 0, 0, 120000000, time.FixedZone("", 3600)),
+	// second round: the extreme offsets, a quarter/half-hour offset west of Greenwich, a named zone with
+	// daylight saving time (a reading of each side), a day that differs from the UTC day in both directions
+	time.Date(2027, 1, 1, 0, 0, 0, 1, time.FixedZone("", 14*3600)),
+	time.Date(2026, 12, 31, 23, 59, 59, 999999000, time.FixedZone("", -12*3600)),
+	time.Date(2026, 3, 1, 7, 8, 9, 10, time.FixedZone("", -(3*3600+30*60))),
+	time.Date(2026, 7, 15, 14, 30, 0, 250000000, mustZone("Europe/Rome")),
+	time.Date(2026, 1, 15, 14, 30, 0, 250000000, mustZone("Europe/Rome")),
+	time.Date(2026, 9, 22, 1, 2, 3, 45, mustZone("Asia/Kolkata")),
+}
+
+func mustZone(n string) *time.Location {
+	l, err := time.LoadLocation(n)
+	if err != nil {
+		panic(err)
+	}
+	return l
 }
 
 // ---------------------------------------------------------------------------------------------
@@ -240,6 +257,12 @@ type verdict struct {
 
 // checkLine is the oracle for one record as it appeared on one destination.
 func checkLine(out []byte, t time.Time, level logger.Level, wantMsg string) *verdict {
+	return checkLineBetween(out, t, t, level, wantMsg)
+}
+
+// checkLineBetween is checkLine for a record whose instant is known to lie in [lo, hi] (lo == hi when the
+// clock is injected; the readings taken right before and after the Log call when the real clock is used).
+func checkLineBetween(out []byte, lo, hi time.Time, level logger.Level, wantMsg string) *verdict {
 	if len(out) == 0 {
 		return &verdict{"no-output", "the record produced no output"}
 	}
@@ -285,8 +308,12 @@ func checkLine(out []byte, t time.Time, level logger.Level, wantMsg string) *ver
 		return &verdict{"fields-missing", fmt.Sprintf("timestamp/level/message are not all strings: %s", line)}
 	}
 	pt, err := time.Parse(time.RFC3339Nano, ts)
-	if err != nil || !pt.Equal(t) {
-		return &verdict{"timestamp-mismatch", fmt.Sprintf("timestamp %q does not decode to the record's time %s", ts, t.Format(time.RFC3339Nano))}
+	if err != nil || pt.Before(lo) || pt.After(hi) {
+		if lo.Equal(hi) {
+			return &verdict{"timestamp-mismatch", fmt.Sprintf("timestamp %q does not decode to the record's time %s", ts, lo.Format(time.RFC3339Nano))}
+		}
+		return &verdict{"timestamp-mismatch", fmt.Sprintf("timestamp %q does not decode to an instant between the clock readings taken before and after the record (%s, %s)",
+			ts, lo.Format(time.RFC3339Nano), hi.Format(time.RFC3339Nano))}
 	}
 	if lv != levelCodes[level] {
 		return &verdict{"level-mismatch", fmt.Sprintf("level %q, record's level is %q", lv, levelCodes[level])}
@@ -460,7 +487,12 @@ func main() {
 		"3-byte over 64 bytes]; x %d formatting modes (format only, %%s, prefix, %%q, error %%v, wrong verb, %%x, surplus arg; the first two on "+
 		"every message, the others on the small set [thorough: all on all]) x 4 levels, clock reading rotating over %d instants, plus the full product "+
 		"(1-byte messages x 4 levels x %d instants). Every record goes through one real Logger{Structured} with stdout AND file destinations; both "+
-		"outputs are judged. distinct = (destination, mode, level, set of escape kinds/character classes in the record)",
+		"outputs are judged. Second dimension, the environment: a reduced alphabet (empty, every 1-byte message, the special sequences, terminal control "+
+		"sequences; format only and %%s) x 4 levels x the clock readings through one real Logger per environment: standard output {pipe, regular file, "+
+		"pseudo-terminal via the stdout seam, pseudo-terminal written to and read on the master side, terminal answer through the shim}, log file {existing "+
+		"with previous lines, existing with a cut last line, truncated while open, renamed while open, restarted}. Third: process time zone (time.Local in 8 zones) x "+
+		"{injected readings carried in the local zone, the real clock bracketed by two readings} x 4 levels x 4 messages. "+
+		"distinct = (destination/environment, mode, level, set of escape kinds/character classes in the record)",
 		len(a3), len(specials), len(contexts), len(modes), len(clockReadings), len(clockReadings))
 
 	dir, err := os.MkdirTemp("", "verif-c37-")
@@ -473,9 +505,23 @@ func main() {
 	chunk := 2048
 	nchunks := (len(recs) + chunk - 1) / chunk
 	pool := make(chan *worker, nw)
-	for i := 0; i < nw; i++ {
-		pool <- newWorker(dir, i)
+	// environment of the main stage: the process' standard output is a pipe (built here, so that the answer
+	// does not depend on how the harness was started), the log file is fresh
+	mainPR, mainPW, err := os.Pipe()
+	if err != nil {
+		vcommon.Harness("pipe: %v", err)
 	}
+	withStdout(mainPW, func() {
+		for i := 0; i < nw; i++ {
+			w := newWorker(dir, i)
+			if isTerm, ok := logger.VerifC37StdoutIsTerminal(w.l); !ok || isTerm {
+				vcommon.Harness("main stage: stdout destination detected terminal=%v (found=%v) on a pipe", isTerm, ok)
+			}
+			pool <- w
+		}
+	})
+	mainPR.Close()
+	mainPW.Close()
 
 	var mu sync.Mutex
 	classCount := map[string]int{}
@@ -488,9 +534,12 @@ func main() {
 	}
 	vreps := map[string]*vrep{}
 
+	var record func(idx int, dest string, v *verdict, out []byte, t time.Time, lv logger.Level, format string, args []any, want string, modeName string)
 	judge := func(idx int, dest string, out []byte, t time.Time, lv logger.Level, format string, args []any, want string, modeName string) {
+		record(idx, dest, checkLine(out, t, lv, want), out, t, lv, format, args, want, modeName)
+	}
+	record = func(idx int, dest string, v *verdict, out []byte, t time.Time, lv logger.Level, format string, args []any, want string, modeName string) {
 		r.Eval(1)
-		v := checkLine(out, t, lv, want)
 		if v != nil {
 			key := dest + ":" + v.key
 			mu.Lock()
@@ -545,6 +594,129 @@ func main() {
 	}
 	pool <- w
 
+	// ---- second dimension: the environment of the destinations ---------------------------------------
+	sinks, ptyErr := buildEnvironments(dir)
+	emsgs := envMessages()
+	type erec struct {
+		msg  string
+		mode int
+	}
+	var erecs []erec
+	for mi := 0; mi < 2; mi++ { // format-only and %s
+		for _, m := range emsgs {
+			erecs = append(erecs, erec{m, mi})
+		}
+	}
+	envBase := pidx + 1
+	var envNames []string
+	envRecords := 0
+	for _, s := range sinks {
+		envNames = append(envNames, s.name)
+	}
+	vcommon.Parallel(len(sinks), func(si int) {
+		s := sinks[si]
+		n := 0
+		for i, rc := range erecs {
+			format, args := modes[rc.mode].build(rc.msg)
+			want := fmt.Sprintf(format, args...)
+			for li, lv := range levels {
+				t := clockReadings[(i+li)%len(clockReadings)]
+				out := s.logOne(n, lv, t, format, args)
+				judge(envBase+n, s.name, out, t, lv, format, args, want, modes[rc.mode].name)
+				n++
+			}
+		}
+		// every level x every clock reading
+		for _, lv := range levels {
+			for _, t := range clockReadings {
+				out := s.logOne(n, lv, t, "%s", []any{"session \"x\" closed"})
+				judge(envBase+n, s.name, out, t, lv, "%s", []any{"session \"x\" closed"}, "session \"x\" closed", "%s")
+				n++
+			}
+		}
+		if s.finish != nil {
+			if v := s.finish(); v != nil {
+				mu.Lock()
+				key := s.name + ":" + v.key
+				classCount[key]++
+				vreps[key] = &vrep{envBase + n, fmt.Sprintf("[%s: %s] %s", s.name, s.desc, v.what), map[string]any{"environment": s.desc}}
+				mu.Unlock()
+			}
+		}
+		// (the blocking readers are not asked again: a surplus line of theirs is part of the record it follows)
+		if extra := []byte(nil); s.name != "stdout-pipe" && s.name != "stdout-tty" && func() bool { extra = s.read(); return len(extra) != 0 }() {
+			mu.Lock()
+			key := s.name + ":stray-output"
+			classCount[key]++
+			vreps[key] = &vrep{envBase + n, fmt.Sprintf("[%s] output outside a record: %q", s.name, extra), map[string]any{"environment": s.desc}}
+			mu.Unlock()
+		}
+		s.close()
+		mu.Lock()
+		envRecords += n
+		mu.Unlock()
+	})
+	if ptyErr != nil {
+		r.Note("no pseudo-terminal could be opened (%v): the answer 'standard output is a terminal' was exercised through the shim only", ptyErr)
+	}
+
+	// ---- the clock: process time zones (time.Local) x {injected local-zone readings, the real clock} -----
+	// time.Local is only changed here, after every other goroutine of the harness has finished.
+	clockBase := envBase + 1000000
+	cn := 0
+	clockMsgs := []string{"", "hello", "a\"\n", "\x00\xff\u2028"}
+	savedLocal := time.Local
+	zones := localZones()
+	for zi, z := range zones {
+		time.Local = z.loc
+		var so bytes.Buffer
+		var now func() time.Time
+		var cur time.Time
+		for _, realClock := range []bool{false, true} {
+			now = nil // the Logger then uses time.Now
+			name := "real-clock"
+			if !realClock {
+				now = func() time.Time { return cur }
+				name = "local-zone-reading"
+			}
+			p := filepath.Join(dir, fmt.Sprintf("clock-%d-%v.log", zi, realClock))
+			l, err := logger.VerifC37New([]logger.Destination{logger.DestinationStdout, logger.DestinationFile}, true, p, logger.Debug, now, &so)
+			if err != nil {
+				vcommon.Harness("logger init: %v", err)
+			}
+			tail := openTail(p, 0)
+			for mi, m := range clockMsgs {
+				for li, lv := range levels {
+					var lo, hi time.Time
+					so.Reset()
+					if realClock {
+						lo = time.Now().Round(0)
+						l.Log(lv, "%s", m)
+						hi = time.Now().Round(0)
+					} else {
+						// readings carried in the process' local zone (what time.Now returns), and converted from UTC
+						base := clockReadings[(zi+mi+li)%len(clockReadings)]
+						if (mi+li)%2 == 0 {
+							cur = base.Local()
+						} else {
+							cur = time.Date(2026, time.Month(1+(zi+mi*4+li)%12), 28, 23, 30+li, 59, 123456789, time.Local)
+						}
+						lo, hi = cur, cur
+						l.Log(lv, "%s", m)
+					}
+					sb := append([]byte(nil), so.Bytes()...)
+					fb := tail.read()
+					cn++
+					record(clockBase+cn, "stdout-"+name, checkLineBetween(sb, lo, hi, lv, m), sb, lo, lv, "%s", []any{m}, m, "%s|tz="+z.name)
+					record(clockBase+cn, "file-"+name, checkLineBetween(fb, lo, hi, lv, m), fb, lo, lv, "%s", []any{m}, m, "%s|tz="+z.name)
+				}
+			}
+			l.Close()
+			tail.f.Close()
+		}
+	}
+	time.Local = savedLocal
+
 	// the file of every worker must hold exactly the lines it was given (nothing buffered or lost):
 	close(pool)
 	for w := range pool {
@@ -561,12 +733,21 @@ func main() {
 	}
 	r.Set("messages", len(msgs))
 	r.Set("records", len(recs)*len(levels)+256*len(levels)*len(clockReadings))
+	r.Set("environments", envNames)
+	r.Set("environment_messages", len(emsgs))
+	r.Set("environment_records", envRecords)
+	r.Set("pseudo_terminal", ptyErr == nil)
+	r.Set("clock_readings", len(clockReadings))
+	r.Set("process_time_zones", len(zones))
+	r.Set("clock_stage_records", cn)
 	r.Set("violating_lines_by_class", classCount)
 	r.Exhaustive = true
 	r.Assumptions = []string{
 		"messages longer than 4 bytes only through the fixed special sequences/contexts; the JSON grammar check trusts encoding/json (Decoder + Valid) plus an explicit UTF-8 check",
 		"level codes DEB/INF/WAR/ERR are taken as the decoding table of the level field",
 		"syslog destination is not structured and not covered; concurrency of Log calls is not part of this check",
+		"environments: standard output {pipe, regular file, pseudo-terminal opened through /dev/ptmx (stdout seam / written to in raw mode and read on the master side), the terminal answer given through the shim}; log file {fresh, existing with previous lines, existing with a cut last line (the appended bytes are judged, not the join with the foreign fragment), truncated while open, renamed while open, re-opened by a restart}; the logger has no reopen-on-signal, so rotation with reopen does not exist; the new environments use the reduced alphabet (empty, every 1-byte message, the special sequences, terminal control sequences) x {format only, %s}",
+		"real-clock records are judged against the clock readings taken right before and after the Log call (monotonic part stripped); a step of the host's clock between the two would be a false alarm",
 	}
 	os.RemoveAll(dir)
 	r.Finish()
